@@ -1,0 +1,1 @@
+//! Hooks for property C18 (empty until needed).
